@@ -88,6 +88,7 @@ type integEngine struct {
 	maxExecPar  int
 	writing     atomic.Value // string: exec key whose chunk is being delivered
 	limboUsed   int
+	cli         bool
 	nstages     int
 	runGID      []runRec
 }
@@ -236,6 +237,7 @@ func (e *integEngine) installHooks() {
 		if kind == "stage-start" {
 			gid := curGID()
 			e.pl.ident.Store(gid, subj.(*scheduler.Stage).Name)
+			e.pl.stageIdent.Store(gid, true)
 			if e.prof.UseStageStart {
 				c.Yield("stage-start", subj.(*scheduler.Stage).Name, gid)
 			} else {
@@ -248,8 +250,8 @@ func (e *integEngine) installHooks() {
 		case "run-enter":
 			t := subj.(*task.Task)
 			gid := curGID()
-			if _, ok := e.pl.ident.Load(gid); !ok {
-				e.pl.ident.Store(gid, t.Name)
+			if _, ok := e.pl.stageIdent.Load(gid); !ok {
+				e.pl.ident.Store(gid, t.Name) // a goroutine that runs several tasks in sequence (CLI targets)
 			}
 			if e.prof.UseRunEnter {
 				c.Yield("run-enter", t.Name, gid)
@@ -259,7 +261,7 @@ func (e *integEngine) installHooks() {
 		case "ctx-up-enter":
 			// always a park point while the context is not up yet: a goroutine entering Up()
 			// while `up` runs blocks on a mutex, which the controller must know about (limbo)
-			name, ok := e.ctxName[subj.(*runner.ExecutionContext)]
+			name, ok := e.ctxNameOf(subj.(*runner.ExecutionContext))
 			if !ok {
 				return
 			}
@@ -270,7 +272,7 @@ func (e *integEngine) installHooks() {
 		}
 	}
 	runner.VerifNote = func(kind string, subj interface{}) {
-		name, ok := e.ctxName[subj.(*runner.ExecutionContext)]
+		name, ok := e.ctxNameOf(subj.(*runner.ExecutionContext))
 		if !ok {
 			return
 		}
@@ -283,6 +285,68 @@ func (e *integEngine) installHooks() {
 		}
 		c.Note(kind, name, "")
 	}
+}
+
+// ctxNameOf: the world's name of a real context object. In CLI runs the objects are built inside
+// the application, so they are recognised by the VS_CTX variable every generated context carries.
+func (e *integEngine) ctxNameOf(x *runner.ExecutionContext) (string, bool) {
+	if n, ok := e.ctxName[x]; ok {
+		return n, true
+	}
+	if x != nil && x.Env != nil {
+		if n, _ := x.Env.Get("VS_CTX").(string); n != "" {
+			if _, ok := e.upState[n]; ok {
+				return n, true
+			}
+		}
+	}
+	return "", false
+}
+
+// runCLI: the world is written to a configuration file and run through the real command line
+// entry point (flag parsing, config loading, buildTaskRunner, runTarget/runPipeline/runTask).
+func (e *integEngine) runCLI(res *RunResult) *integEngine {
+	c := e.c
+	if CLIHooks.RunApp == nil {
+		res.HarnessErr = "CLI hooks not installed"
+		return nil
+	}
+	file, err := e.writeConfig()
+	if err != nil {
+		res.HarnessErr = "config: " + err.Error()
+		return nil
+	}
+	defer os.RemoveAll(e.tmpDir)
+	for _, cs := range e.w.Contexts {
+		var z int32
+		e.upState[cs.Name] = &z
+	}
+	for _, g := range e.w.AllGraphs() {
+		e.nstages += g.CountStages()
+	}
+	e.cli = true
+	CLIHooks.ResetCancel()
+	c.atAbort = append(c.atAbort, CLIHooks.Abort)
+	scheduler.VerifPause = simPause
+	defer func() { scheduler.VerifPause = 0 }()
+	c.onEvent = e.onEvent
+	e.installHooks()
+	defer e.removeHooks()
+	args := append([]string{"taskctl", "-c", file, "--output", "raw"}, e.w.CLIArgs...)
+	dr := &driverRec{Spec: DriverSpec{Kind: "cli", Target: strings.Join(e.w.CLIArgs, " ")}, Key: "0:cli", CallSeq: -1}
+	e.drivers = append(e.drivers, dr)
+	go func() {
+		_, a := c.Yield("driver", dr.Key, nil)
+		if a.Kind == "abort" {
+			return
+		}
+		c.Note("driver-call", dr.Key, "")
+		err := CLIHooks.RunApp(args)
+		c.NoteData("driver-return", dr.Key, errString(err), err)
+		c.Note("finish-return", "", "")
+	}()
+	e.loop()
+	return e
 }
 
 func (e *integEngine) removeHooks() {
@@ -322,6 +386,9 @@ func RunIntegWorld(c *Ctl, prof *IntegProfile, w *IntegWorld, res *RunResult) *i
 	e.pl.onWrite = func(key string) { e.writing.Store(key) }
 	if w.Format == output.FormatCockpit {
 		output.VerifReset()
+	}
+	if len(w.CLIArgs) > 0 {
+		return e.runCLI(res)
 	}
 	tr, err := runner.NewTaskRunner(runner.WithContexts(e.ctxs))
 	if err != nil {
@@ -520,6 +587,9 @@ func (e *integEngine) nextWake() time.Duration {
 // schedActive: a pipeline driver has been started and has not returned.
 func (e *integEngine) schedActive() bool {
 	for _, d := range e.drivers {
+		if d.Spec.Kind == "cli" && d.Released && !d.Returned && e.nstages > 0 {
+			return true
+		}
 		if d.Spec.Kind == "pipeline" && d.Released && !d.Returned {
 			return true
 		}
